@@ -12,6 +12,16 @@ use std::sync::mpsc;
 use reed_solomon_simd::engine::{Engine, GfElement, Naive, GF_ORDER};
 use reed_solomon_simd::rate::{HighRateDecoder, HighRateEncoder, LowRateDecoder, LowRateEncoder, RateDecoder, RateEncoder};
 
+thread_local! {
+    /// Where a thread keeps its last codec "for next time", as pool workers do; first touched when the thread starts,
+    /// i.e. before any thread-local the crate itself may create, so that (on this platform) it is destroyed after them.
+    static PARKED: std::cell::RefCell<Vec<Box<dyn std::any::Any>>> = const { std::cell::RefCell::new(Vec::new()) };
+}
+
+fn park(codec: Box<dyn std::any::Any>) {
+    PARKED.with(|p| p.borrow_mut().push(codec));
+}
+
 fn splitmix(s: &mut u64) -> u64 {
     *s = s.wrapping_add(0x9E37_79B9_7F4A_7C15);
     let mut z = *s;
@@ -47,13 +57,16 @@ fn originals(job: &Job) -> Vec<[u8; 2]> {
 
 fn encode(job: &Job) -> Vec<Vec<u8>> {
     let orig = originals(job);
-    fn go<T: RateEncoder<Naive>>(job: &Job, orig: &[[u8; 2]]) -> Vec<Vec<u8>> {
+    fn go<T: RateEncoder<Naive> + 'static>(job: &Job, orig: &[[u8; 2]]) -> Vec<Vec<u8>> {
         let mut enc = T::new(job.k, job.r, 2, Naive::new(), None).unwrap();
         for o in orig {
             enc.add_original_shard(o).unwrap();
         }
         let res = enc.encode().unwrap();
-        res.recovery_iter().map(<[u8]>::to_vec).collect()
+        let out = res.recovery_iter().map(<[u8]>::to_vec).collect();
+        drop(res);
+        park(Box::new(enc));
+        out
     }
     if job.high { go::<HighRateEncoder<Naive>>(job, &orig) } else { go::<LowRateEncoder<Naive>>(job, &orig) }
 }
@@ -75,7 +88,7 @@ fn decode_first_half(job: &Job, recovery: &[Vec<u8>]) -> Half {
 
 fn decode_second_half(job: &Job, half: Half) -> Vec<u8> {
     let orig = originals(job);
-    fn go<T: RateDecoder<Naive>>(mut dec: T, orig: &[[u8; 2]]) -> Vec<u8> {
+    fn go<T: RateDecoder<Naive> + 'static>(mut dec: T, orig: &[[u8; 2]]) -> Vec<u8> {
         for (i, o) in orig.iter().enumerate().skip(1) {
             dec.add_original_shard(i, o).unwrap();
         }
@@ -83,6 +96,8 @@ fn decode_second_half(job: &Job, half: Half) -> Vec<u8> {
         let restored: Vec<(usize, Vec<u8>)> = res.restored_original_iter().map(|(i, s)| (i, s.to_vec())).collect();
         assert_eq!(restored.len(), 1);
         assert_eq!(restored[0].0, 0);
+        drop(res);
+        park(Box::new(dec));
         restored[0].1.clone()
     }
     match half {
@@ -157,6 +172,7 @@ fn main() {
                 let jobs = jobs.clone();
                 let expected = expected.clone();
                 handles.push(std::thread::spawn(move || {
+                    PARKED.with(|p| p.borrow_mut().clear());
                     // first use of the tables races with the other threads (cold start)
                     let rec = encode(&job);
                     let mut mine: String = rec.iter().map(|s| hex(s)).collect::<Vec<_>>().join(".");
